@@ -264,6 +264,16 @@ Proof.
   eapply LI_same; [eapply Hl; exact E|exact H].
 Qed.
 
+Lemma for_each_peer_log (f : raft -> N -> Res raft) ids self :
+  (forall r0 id r1, f r0 id = Ok r1 -> r_log r1 = r_log r0) ->
+  forall r r', for_each_peer ids self f r = Ok r' -> r_log r' = r_log r.
+Proof.
+  intros Hl. induction ids as [|id rest IH]; intros r r' E; cbn [for_each_peer] in E.
+  - injection E as <-. reflexivity.
+  - destruct (id =? self); [apply IH; exact E|].
+    inv_bind E. apply IH in E. rewrite E. eapply Hl; exact Hx.
+Qed.
+
 Lemma bcast_append_nops rw r : LI rw r -> nops (bcast_append r).
 Proof.
   intros H. unfold bcast_append. apply (for_each_peer_nops rw); [| |exact H].
@@ -396,3 +406,185 @@ Qed.
 Lemma handle_heartbeat_nops rw r m : LI rw r -> nops (handle_heartbeat r m).
 Proof. intros H. unfold handle_heartbeat. unfold LI in H. snops. Qed.
 #[export] Hint Extern 1 (nops (handle_heartbeat _ _)) => let rw := the_rw in eapply (handle_heartbeat_nops rw) : nops.
+
+(* an inbound MsgAppend as a library peer builds it: consecutive indexes (append_wf), entry
+   terms >= 1, and an anchor that is inside the receiver's log or has a non-zero term *)
+Definition append_wf2 (li : N) (m : msg) : Prop :=
+  append_wf m /\ nz_terms (m_entries m) /\ (m_index m <= li \/ m_log_term m <> 0).
+
+Lemma handle_append_entries_nops rw r m :
+  LI rw r -> append_wf2 (last_index (r_log r)) m -> nops (handle_append_entries r m).
+Proof.
+  intros H ((W1 & W2) & W3 & W4). unfold handle_append_entries. unfold LI in H.
+  destruct (negb _); [apply (send_request_snapshot_nops rw); exact H|].
+  destruct (_ <? _); [snops|]. cbv zeta.
+  apply nops_bind.
+  { destruct (maybe_append _ _ _ _ _) as [v|s] eqn:E; [exact I|].
+    apply (maybe_append_only rw _ H) in E; try assumption.
+    - subst. apply notin_b. vm_compute. reflexivity.
+    - rewrite <- (abs_last rw _ H). exact W4. }
+  intros [l' res] E. cbv beta iota.
+  pose proof E as Q. apply (maybe_append_pres rw) in Q; try assumption. destruct Q as (Q & _).
+  destruct res as [[ci li]|]; snops.
+Qed.
+
+Lemma post_conf_change_nops rw r : LI rw r -> nops (post_conf_change r).
+Proof.
+  intros H. unfold post_conf_change. unfold LI in H. cbv zeta.
+  match goal with |- nops (if ?c then _ else _) => destruct c end; [exact I|].
+  match goal with |- nops (if ?c then _ else _) => destruct c end; [exact I|].
+  apply nops_bind; [snops|]. intros [r1 b] E1. fwd E1. cbv beta iota.
+  assert (Hfl : forall r0 id r2,
+            match get_pr r0 id with
+            | Some pr => y <- maybe_send_append r0 id pr false ;;
+                         (let '(r', pr', _) := y in Ok (put_pr r' id pr'))
+            | None => Panic site_pr_unwrap
+            end = Ok r2 -> r_log r2 = r_log r0).
+  { intros r0 id r2 E. destruct (get_pr r0 id); [|discriminate].
+    inv_bind E. destruct x as [[r' pr'] b']. injection E as <-.
+    apply maybe_send_append_log in Hx. exact Hx. }
+  apply nops_bind.
+  { destruct b; [snops|].
+    apply (for_each_peer_nops rw); [|exact Hfl|solve_li].
+    intros r0 id H0. unfold LI in H0. snops. }
+  intros r2 E2.
+  assert (Q2 : RepInv rw (r_log r2)).
+  { destruct b.
+    - apply bcast_append_log in E2. rewrite E2. assumption.
+    - apply (for_each_peer_log _ _ _ Hfl) in E2. rewrite E2. assumption. }
+  snops.
+Qed.
+#[export] Hint Extern 1 (nops (post_conf_change _)) => let rw := the_rw in eapply (post_conf_change_nops rw) : nops.
+
+Lemma restore_nops rw r s : LI rw r -> s_index s < u64_max -> nops (restore r s).
+Proof.
+  intros H Hb. unfold restore. unfold LI in H.
+  destruct (_ <? _); [exact I|]. destruct (negb _); [snops|]. cbv zeta.
+  destruct (negb _); [exact I|].
+  apply nops_bind; [snops|]. intros mt _.
+  match goal with |- nops (if ?c then _ else _) => destruct c end; [snops|].
+  apply nops_bind; [snops|]. intros l' E.
+  pose proof E as Q. apply (log_restore_pres rw) in Q; [|exact H|exact Hb]. destruct Q as (Q & _).
+  destruct (ConfChange.restore _ _) as [[c' ids']|e]; [|snops].
+  apply nops_bind; [apply (post_conf_change_nops rw); solve_li|]. intros [r1 cs1] _. snops.
+Qed.
+#[export] Hint Extern 1 (nops (restore _ _)) => let rw := the_rw in eapply (restore_nops rw) : nops.
+
+Lemma handle_snapshot_nops rw r m :
+  LI rw r -> s_index (m_snapshot m) < u64_max -> nops (handle_snapshot r m).
+Proof. intros H Hb. unfold handle_snapshot. unfold LI in H. snops. Qed.
+
+Lemma handle_append_response_nops rw r m : LI rw r -> nops (handle_append_response r m).
+Proof. intros H. unfold handle_append_response. unfold LI in H. snops. Qed.
+#[export] Hint Extern 1 (nops (handle_append_response _ _)) =>
+  let rw := the_rw in eapply (handle_append_response_nops rw) : nops.
+
+Lemma handle_heartbeat_response_nops rw r m : LI rw r -> nops (handle_heartbeat_response r m).
+Proof. intros H. unfold handle_heartbeat_response. unfold LI in H. snops. Qed.
+#[export] Hint Extern 1 (nops (handle_heartbeat_response _ _)) =>
+  let rw := the_rw in eapply (handle_heartbeat_response_nops rw) : nops.
+
+Lemma handle_transfer_leader_nops rw r m : LI rw r -> nops (handle_transfer_leader r m).
+Proof. intros H. unfold handle_transfer_leader. unfold LI in H. snops. Qed.
+#[export] Hint Extern 1 (nops (handle_transfer_leader _ _)) =>
+  let rw := the_rw in eapply (handle_transfer_leader_nops rw) : nops.
+
+(* message precondition for the shape sites: C14's msg_wf plus, for MsgAppend, the two
+   facts a library peer guarantees (entry terms >= 1; anchor in range or of non-zero term) *)
+Definition msg_wf2 (li : N) (m : msg) : Prop :=
+  msg_wf li m /\ (m_type m = MsgAppend -> append_wf2 li m).
+
+Lemma step_leader_nops rw r m :
+  LI rw r -> msg_wf (last_index (r_log r)) m -> nops (step_leader r m).
+Proof.
+  intros H (_ & Wp & _ & _). unfold step_leader. unfold LI in H. cbv zeta.
+  destruct (quorum_recently_active (r_prs r) (r_id r)) as [prs' active].
+  destruct (filter_conf_changes r (m_entries m) (m_ccinfo m) 0) as [[r1 ents] ok] eqn:Ef.
+  pose proof (filter_conf_changes_log _ _ _ _ _ _ _ Ef) as El.
+  pose proof (RaftProofsC09.filter_length _ _ _ _ _ _ _ Ef) as Hlen.
+  assert (H1 : RepInv rw (r_log r1)) by (rewrite El; exact H).
+  destruct (m_type m =? MsgBeat); [snops|].
+  destruct (m_type m =? MsgCheckQuorum); [snops|].
+  destruct (m_type m =? MsgPropose) eqn:Ep.
+  { apply N.eqb_eq in Ep. specialize (Wp Ep).
+    assert (Hr : room (N.of_nat (length ents)) r1) by (unfold room; rewrite El, Hlen; exact Wp).
+    snops. }
+  snops.
+Qed.
+#[export] Hint Extern 1 (nops (step_leader _ _)) => let rw := the_rw in eapply (step_leader_nops rw) : nops.
+
+Lemma elect_room li m t :
+  msg_wf li m -> m_type m = t -> elect_type t = true -> li + 1 < u64_max.
+Proof. intros (We & _) <- E. apply We. exact E. Qed.
+
+Lemma step_follower_nops rw r m :
+  LI rw r -> msg_wf2 (last_index (r_log r)) m -> nops (step_follower r m).
+Proof.
+  intros H (W & Wa2). pose proof W as (We & Wp & Wa & Ws).
+  unfold step_follower. unfold LI in H. cbv zeta.
+  destruct (m_type m =? MsgPropose); [snops|].
+  destruct (m_type m =? MsgAppend) eqn:Ea.
+  { apply N.eqb_eq in Ea. apply nops_bind; [|intros; exact I].
+    apply (handle_append_entries_nops rw); [solve_li|exact (Wa2 Ea)]. }
+  destruct (m_type m =? MsgHeartbeat); [snops|].
+  destruct (m_type m =? MsgSnapshot) eqn:Es.
+  { apply N.eqb_eq in Es. apply nops_bind; [|intros; exact I].
+    apply (handle_snapshot_nops rw); [solve_li|exact (Ws Es)]. }
+  destruct (m_type m =? MsgTransferLeader); [snops|].
+  destruct (m_type m =? MsgTimeoutNow) eqn:Et.
+  { apply N.eqb_eq in Et. assert (Hr : room 1 r) by (eapply elect_room; [exact W|exact Et|reflexivity]).
+    snops. }
+  snops.
+Qed.
+
+Lemma step_candidate_nops rw r m :
+  LI rw r -> msg_wf2 (last_index (r_log r)) m -> nops (step_candidate r m).
+Proof.
+  intros H (W & Wa2). pose proof W as (We & Wp & Wa & Ws).
+  unfold step_candidate. unfold LI in H. cbv zeta.
+  destruct (m_type m =? MsgPropose); [exact I|].
+  match goal with |- nops (if ?c then _ else _) => destruct c eqn:Eg end.
+  { destruct (negb _); [snops|].
+    apply nops_bind; [snops|]. intros r1 E1. fwd E1.
+    apply nops_bind; [|intros; exact I].
+    destruct (m_type m =? MsgAppend) eqn:Ea.
+    { apply N.eqb_eq in Ea. apply (handle_append_entries_nops rw); [solve_li|].
+      match goal with L : last_index (r_log r1) = _ |- _ => rewrite L end. exact (Wa2 Ea). }
+    destruct (m_type m =? MsgHeartbeat) eqn:Eh; [snops|].
+    cbn [orb] in Eg. apply N.eqb_eq in Eg.
+    apply (handle_snapshot_nops rw); [solve_li|exact (Ws Eg)]. }
+  match goal with |- nops (if ?c then _ else _) => destruct c eqn:Ev end; [|exact I].
+  assert (Hr : room 1 r).
+  { apply orb_prop in Ev. destruct Ev as [Ev|Ev]; apply N.eqb_eq in Ev;
+      (eapply elect_room; [exact W|exact Ev|reflexivity]). }
+  snops.
+Qed.
+
+Lemma step_body_nops rw r m :
+  LI rw r -> msg_wf2 (last_index (r_log r)) m -> nops (RaftProofsC08.step_body r m).
+Proof.
+  intros H W. pose proof W as (W1 & _).
+  unfold RaftProofsC08.step_body, RaftProofsC08.step_role. unfold LI in H. cbv zeta.
+  destruct (m_type m =? MsgHup) eqn:Eh.
+  { apply N.eqb_eq in Eh. assert (Hr : room 1 r) by (eapply elect_room; [exact W1|exact Eh|reflexivity]).
+    snops. }
+  match goal with |- nops (if ?c then _ else _) => destruct c end; [snops|].
+  destruct (r_state r).
+  - apply (step_follower_nops rw); assumption.
+  - apply (step_candidate_nops rw); assumption.
+  - apply (step_leader_nops rw); assumption.
+  - apply (step_candidate_nops rw); assumption.
+Qed.
+
+Theorem step_nops rw r m :
+  LI rw r -> msg_wf2 (last_index (r_log r)) m -> nops (step r m).
+Proof.
+  intros H W. rewrite RaftProofsC08.step_decompose.
+  apply nops_bind.
+  { unfold RaftProofsC08.step_prologue. unfold LI in H. snops. }
+  intros pre E. apply RaftProofsC08.step_prologue_spec in E.
+  destruct pre as [[r1 c1]|r1]; [exact I|].
+  destruct E as [-> |(_ & l & Hbf)]; [apply (step_body_nops rw); assumption|].
+  destruct (become_follower_pres rw _ _ _ _ Hbf H) as [H1 L1].
+  apply (step_body_nops rw); [exact H1|rewrite L1; exact W].
+Qed.
